@@ -18,6 +18,7 @@ import (
 	"fmt"
 	"math/rand"
 	"os"
+	"path/filepath"
 	"reflect"
 	"sort"
 	"strings"
@@ -27,6 +28,7 @@ import (
 
 	"go.opentelemetry.io/collector/confmap"
 	"go.opentelemetry.io/collector/confmap/provider/envprovider"
+	"go.opentelemetry.io/collector/confmap/provider/fileprovider"
 	"go.opentelemetry.io/collector/confmap/provider/yamlprovider"
 	"go.opentelemetry.io/collector/verifharness/lib/confgen"
 	"go.opentelemetry.io/collector/verifharness/lib/driver"
@@ -83,6 +85,15 @@ func (p *vvProvider) Retrieve(_ context.Context, uri string, w confmap.WatcherFu
 		switch x := d.(type) {
 		case string:
 			return confmap.NewRetrievedFromYAML([]byte(x), opts...)
+		case *changingDoc:
+			// a source whose content differs at every retrieval
+			m := x.Seq[len(x.Seq)-1]
+			if x.n < len(x.Seq) {
+				m = x.Seq[x.n]
+			}
+			x.n++
+			x.returned = append(x.returned, m)
+			return confmap.NewRetrieved(m, opts...)
 		default:
 			return confmap.NewRetrieved(x, opts...)
 		}
@@ -107,6 +118,9 @@ func newResolver(cd *caseData, uris []string, def string) (*confmap.Resolver, er
 			confmap.NewProviderFactory(func(s confmap.ProviderSettings) confmap.Provider {
 				return &counted{yamlprovider.NewFactory().Create(s), cd}
 			}),
+			confmap.NewProviderFactory(func(s confmap.ProviderSettings) confmap.Provider {
+				return &counted{fileprovider.NewFactory().Create(s), cd}
+			}),
 		},
 		DefaultScheme: def,
 	})
@@ -115,19 +129,7 @@ func newResolver(cd *caseData, uris []string, def string) (*confmap.Resolver, er
 func resolve(cd *caseData, uris []string, def string) (conf *confmap.Conf, err error, pv any, stack string) {
 	pv, stack = driver.Catch(func() {
 		var r *confmap.Resolver
-		r, err = confmap.NewResolver(confmap.ResolverSettings{
-			URIs: uris,
-			ProviderFactories: []confmap.ProviderFactory{
-				confmap.NewProviderFactory(func(confmap.ProviderSettings) confmap.Provider { return &vvProvider{cd} }),
-				confmap.NewProviderFactory(func(s confmap.ProviderSettings) confmap.Provider {
-					return &counted{envprovider.NewFactory().Create(s), cd}
-				}),
-				confmap.NewProviderFactory(func(s confmap.ProviderSettings) confmap.Provider {
-					return &counted{yamlprovider.NewFactory().Create(s), cd}
-				}),
-			},
-			DefaultScheme: def,
-		})
+		r, err = newResolver(cd, uris, def)
 		if err != nil {
 			return
 		}
@@ -975,6 +977,10 @@ func workerBody(w *confgen.Worker) {
 			continue
 		}
 		rng := w.CaseRand(i)
+		if i%10 == 9 {
+			runMergeRepeat(w, i, rng)
+			continue
+		}
 		if i%5 == 4 {
 			runMerge(w, i, rng)
 			continue
@@ -994,9 +1000,22 @@ func workerBody(w *confgen.Worker) {
 	}
 }
 
+// workDirOfShard is the directory of the shard's result file (the parent's work directory, removed by it).
+func workDirOfShard() string {
+	for i, a := range os.Args {
+		if (a == "-result" || a == "--result") && i+1 < len(os.Args) {
+			return filepath.Dir(os.Args[i+1])
+		}
+		if strings.HasPrefix(a, "-result=") {
+			return filepath.Dir(strings.TrimPrefix(a, "-result="))
+		}
+	}
+	return ""
+}
+
 func run(c *driver.Ctx) {
 	n := int64(c.N(4000, 60000))
-	confgen.Supervise(c, n, confgen.Limits{CPUms: 120000, HeapMB: 256, Steps: 200000, MaxUnexplainedAborts: 3}, "", func(a *confgen.Abort) bool {
+	confgen.Supervise(c, n, confgen.Limits{CPUms: 120000, HeapMB: 256, Steps: 200000, MaxUnexplainedAborts: 3}, workDirOfShard(), func(a *confgen.Abort) bool {
 		if a.Why == "cpu-limit" {
 			// CPU time alone is no evidence on a loaded machine: neither the step nor the live-heap criterion fired
 			c.Inconclusive("case stopped at the CPU backstop without logical evidence of non-termination")
@@ -1030,7 +1049,7 @@ func main() {
 	driver.Main(driver.Spec{
 		ID:    "C12",
 		Level: "exploration",
-		Rule: "a case is (default scheme, input string, generated provider values, root-document mode) or (list of 1-4 generated source maps with their delivery modes) or (one Resolver resolved 2-4 times while the provider table and an environment variable change between the resolutions, with and without a watcher event; every resolution is compared with the reference for the table current at that time and must retrieve every used uri again); strings are drawn from the token grammar " +
+		Rule: "a case is (default scheme, input string, generated provider values, root-document mode) or (list of 1-4 generated source maps with their delivery modes) or (list of 2-6 source URIs drawn with repetition from a pool of 2-4 sources: adjacent, non-adjacent and triple repeats of the same vv:, yaml:, env: and file: URI, compared with the plain right-biased fold over the list as given) or (one Resolver resolved 2-4 times while the provider table and an environment variable change between the resolutions, with and without a watcher event; every resolution is compared with the reference for the table current at that time and must retrieve every used uri again); strings are drawn from the token grammar " +
 			"{literal, $, $$, ${vv:k}, ${NAME}, ${env:…}, ${yaml:…}, $${…}, runs of n '$' before '{', even and odd runs of '$' inside the braces, nested, adjacent and repeated references, unterminated and malformed forms}; provider values cover every YAML type, " +
 			"values with references/escapes, cycles and '$' in the name; an expansion case is non-trivial when the string contains '$', a merge case when >= 2 sources overlap in a key; distinct = distinct input hash",
 		Assumptions: []string{
